@@ -844,7 +844,7 @@ func (fx *FuncCtx) frameCheck(st *State, k int, pos token.Pos) {
 				allowed[c] = append(allowed[c], ref)
 			}
 		}
-		fx.lines = fx.lines[:nLines] // discard probe output
+		_ = nLines // probe output stays: it may contain declarations later code relies on
 	}
 	comps := make([]string, 0, len(st.Heap))
 	for c := range st.Heap {
